@@ -418,3 +418,95 @@ def check_slot_completeness(run, funcs, rule='R20s'):
                 else:
                     run.holds(rule, f.key, construct, 'every slot 0..%d is written on every path to the return' % (k - 1), f=f, node=node.ast)
     return n
+
+
+# ------------------------------------------------------------------------------ the layout of a point array is not guessed from one dimension
+def _shape_dim_test(t):
+    """X.shape[d] == K  ->  (X text, d, K text, True)   |   X.shape[d] != K -> (.., False)"""
+    if isinstance(t, ast.Compare) and len(t.ops) == 1 and isinstance(t.ops[0], (ast.Eq, ast.NotEq)):
+        for a, b in ((t.left, t.comparators[0]), (t.comparators[0], t.left)):
+            if isinstance(a, ast.Subscript) and isinstance(a.value, ast.Attribute) and a.value.attr == 'shape' and \
+                    isinstance(a.slice, ast.Constant) and a.slice.value in (0, 1):
+                return (ast.unparse(a.value.value), a.slice.value, ast.unparse(b), isinstance(t.ops[0], ast.Eq))
+    return None
+
+
+def _is_transpose_of(e, xtxt):
+    if isinstance(e, ast.Attribute) and e.attr == 'T' and ast.unparse(e.value) == xtxt:
+        return True
+    if isinstance(e, ast.Call) and getattr(e.func, 'attr', getattr(e.func, 'id', None)) == 'transpose':
+        if e.args and ast.unparse(e.args[0]) == xtxt:
+            return True
+        if isinstance(e.func, ast.Attribute) and ast.unparse(e.func.value) == xtxt and not e.args:
+            return True
+    return False
+
+
+def check_layout_by_one_dimension(run, funcs, rule='R20t'):
+    """An array of points is documented one point per COLUMN (K x M).  Code that also accepts one point per row and picks the
+    layout from a single dimension -- `P = X.T if X.shape[1] == K else X`, `if X.shape[1] == K: X = X.T` -- transposes every
+    K x K array, so K points given as columns are read as rows: result column i is no longer the image of point i.  The choice
+    is sound only if the test also excludes the documented layout (`X.shape[0] != K`)."""
+    from ..pattern import conjuncts
+    n = 0
+    for f in funcs:
+        for x in own_walk(f.node):
+            test = None
+            xtxt = None
+            if isinstance(x, ast.IfExp):
+                test, a, b = x.test, x.body, x.orelse
+            elif isinstance(x, ast.If) and len(x.body) == 1 and isinstance(x.body[0], ast.Assign) and len(x.body[0].targets) == 1 and not x.orelse:
+                st = x.body[0]
+                test, a, b = x.test, st.value, st.targets[0]
+            elif isinstance(x, ast.If) and len(x.body) == 1 and len(x.orelse) == 1 and all(
+                    isinstance(y, ast.Assign) and len(y.targets) == 1 and isinstance(y.targets[0], ast.Name) for y in (x.body[0], x.orelse[0])) \
+                    and x.body[0].targets[0].id == x.orelse[0].targets[0].id:
+                # P = X.T if c else X   (also in its statement form)
+                test, a, b = x.test, x.body[0].value, x.orelse[0].value
+            elif isinstance(x, ast.If) and len(x.body) == 1 and len(x.orelse) == 1:
+                # the same statement in both arms, once with X.T and once with X (the local of the choice put in place)
+                test, a, b = x.test, None, None
+                whole = (x.body[0], x.orelse[0])
+            else:
+                continue
+            cs = conjuncts(test)
+            dims = [d for d in (_shape_dim_test(c) for c in cs) if d is not None]
+            if a is None:
+                class _UnT(ast.NodeTransformer):
+                    def __init__(self, name):
+                        self.name = name
+                        self.hit = 0
+
+                    def visit_Attribute(self, n_):
+                        self.generic_visit(n_)
+                        if n_.attr == 'T' and ast.unparse(n_.value) == self.name:
+                            self.hit += 1
+                            return n_.value
+                        return n_
+                found = False
+                for (xt, d, k, eq) in dims:
+                    import copy as _cp
+                    tr_st, id_st = (whole[0], whole[1]) if eq else (whole[1], whole[0])
+                    u = _UnT(xt)
+                    stripped = u.visit(_cp.deepcopy(tr_st))
+                    if d == 1 and u.hit == 1 and ast.dump(stripped) == ast.dump(id_st):
+                        a, b = (ast.Attribute(value=ast.parse(xt, mode='eval').body, attr='T', ctx=ast.Load()), ast.parse(xt, mode='eval').body)
+                        if not eq:
+                            a, b = b, a
+                        found = True
+                if not found:
+                    continue
+            for (xt, d, k, eq) in dims:
+                # the arm taken when shape[1] == K (or shape[0] != K ... not a guess from ONE dimension) transposes, the other does not
+                tr_arm, id_arm = (a, b) if eq else (b, a)
+                if d == 1 and _is_transpose_of(tr_arm, xt) and ast.unparse(id_arm) == xt:
+                    n += 1
+                    excl = any(o[0] == xt and o[1] == 0 and o[2] == k and (o[3] != eq) for o in dims)
+                    construct = 'layout of %s chosen by %s' % (xt, src(test, 50))
+                    if excl:
+                        run.holds(rule, f.key, construct, 'the documented %s x M layout is excluded by the same test' % k, f=f, node=x)
+                    else:
+                        run.violation(rule, f.key, construct, 'the array %s is transposed whenever its second dimension is %s: a %s x %s array given in the '
+                                      'documented layout (one point per column) also satisfies the test and is read row by row, so result column '
+                                      'i is not the image of point i (any non-symmetric square array of points)' % (xt, k, k, k), f=f, node=x)
+    return n
